@@ -1,5 +1,5 @@
 //@ unit scope
-//@ serves C10
+//@ serves C10 C18
 //@ must_verify VM::op_func VM::to_new_pointer VM::with_import_stack VM::with_pointer VM::op_new_scope VM::fcall_impl VM::op_func VM::push Stack::new Stack::get Stack::is_bound Stack::add Stack::snapshot Stack::remove_symbol VM::binding_push VM::op_bind VM::clean_copy VM::to_scoped VM::pop
 //@ include prelude/head.rs
 use std::rc::Rc;
